@@ -34,6 +34,7 @@ type Exec struct {
 	inlineDepthNow int
 	cbs       map[int]*cbInfo
 	ranFns    map[*ssa.Function]bool
+	lastCalls map[string][]*Cell
 }
 
 // cbInfo: a callback that a callee invokes repeatedly (`calls P loop`): the
